@@ -383,9 +383,19 @@ def check_stoichiometry(ctx, f):
     where = ctx.loc('sbmlutil', f)
     a = [x.arg for x in f.args.args]
     txt = [util.stmt_key(s).replace(' ', '') for s in f.body]
-    need = ['inputs=list(OrderedDict.fromkeys(%s))' % a[1], 'input_coefs=[%s.count(i)foriininputs]' % a[1],
-            'outputs=list(OrderedDict.fromkeys(%s))' % a[2], 'output_coefs=[%s.count(o)foroinoutputs]' % a[2]]
+    need = ['inputs=list(OrderedDict.fromkeys(%s))' % a[1], 'outputs=list(OrderedDict.fromkeys(%s))' % a[2]]
     miss = [n for n in need if n not in txt]
+    # multiplicities: coefs = [<argument list>.count(v) for v in <distinct list>], whatever the comprehension variable is called
+    for lst_, coefs_, arg_ in (('inputs', 'input_coefs', a[1]), ('outputs', 'output_coefs', a[2])):
+        d_ = [s_ for s_ in f.body if isinstance(s_, ast.Assign) and src(s_.targets[0]) == coefs_]
+        ok_ = False
+        if len(d_) == 1 and isinstance(d_[0].value, ast.ListComp) and len(d_[0].value.generators) == 1:
+            g_ = d_[0].value.generators[0]
+            e_ = d_[0].value.elt
+            ok_ = isinstance(g_.target, ast.Name) and not g_.ifs and src(g_.iter) == lst_ and isinstance(e_, ast.Call) and \
+                src(e_.func).replace(' ', '') == '%s.count' % arg_ and len(e_.args) == 1 and src(e_.args[0]) == g_.target.id
+        if not ok_:
+            miss.append('%s is not the list of the multiplicities of %s in %s' % (coefs_, lst_, arg_))
     for lst, coefs, creator in (('inputs', 'input_coefs', 'createReactant'), ('outputs', 'output_coefs', 'createProduct')):
         loops = [s_ for s_ in f.body if isinstance(s_, ast.For) and any(isinstance(c, ast.Call) and src(c.func) == 'reaction.%s' % creator for c in ast.walk(s_))]
         if len(loops) != 1:
